@@ -14,7 +14,7 @@ def split_name(full):
     return None, full
 
 class DocGen:
-    def __init__(self, rng, nodes, forward=0.0, extras=0.3, shuffle=0.5, rich=0.0, loose=False, sibling_defs=False):
+    def __init__(self, rng, nodes, forward=0.0, extras=0.3, shuffle=0.5, rich=0.0, loose=False, sibling_defs=False, alias_names=0.0):
         """rich: probability that a free string-valued position (doc, default, custom attribute keys and values -- and, with
         `loose`, aliases: positions the parser does not interpret) holds a string that is awkward to copy at the text level
         (ends in a backslash, escaped quotes, control characters, \\u escapes, whitespace) and that a free value is a nested
@@ -25,6 +25,11 @@ class DocGen:
         self.shuffle = shuffle
         self.rich = rich
         self.loose = loose
+        # alias_names: probability that a schema object carries an `aliases` attribute made of NAMES OF THE DOCUMENT (fullnames,
+        # simple names, `.Simple` of the other named types -- defined earlier or later --, its own name) instead of the fixed "Old":
+        # aliases matter for reader/writer resolution only, they define nothing within one schema
+        self.alias_names = alias_names
+        self.def_objs = {}         # named node -> the object that defines it (by identity)
         # sibling_defs: a named type is defined only where no record definition (other than the root's) is open -- next to the other
         # definitions, never nested in one -- and written as a reference (forward, if need be) everywhere else
         self.sibling_defs = sibling_defs
@@ -42,6 +47,7 @@ class DocGen:
         self.open = set()          # records whose definition is being written
         self.ref_kinds = {"inside": 0, "complete": 0, "forward": 0}      # references by the state of their target's definition
         self.ref_sites = []
+        self.ref_states = []       # parallel to ref_sites: "inside" | "complete" | "forward"
         self.def_sites = []
         self.has_forward = any(v > 1 for v in self.define_at.values())
 
@@ -74,8 +80,10 @@ class DocGen:
         c = self.rng.choice(opts)
         r = ("str", simple if c == "bare" else ("." + simple if c == "dot" else self.nodes[k].name))
         # every reference written, with the namespace in force there (used to derive near-miss invalid documents)
-        self.ref_kinds["inside" if k in self.open else "complete" if k in self.defined else "forward"] += 1
+        state = "inside" if k in self.open else "complete" if k in self.defined else "forward"
+        self.ref_kinds[state] += 1
         self.ref_sites.append((r, enclosing, k))
+        self.ref_states.append(state)
         return r
 
     def name_attrs(self, k, enclosing):
@@ -137,7 +145,18 @@ class DocGen:
         out = []
         if rng.random() < self.extras:
             out.append(("doc", ("str", self.free_string())))
-        if rng.random() < self.extras / 2:
+        if self.alias_names and rng.random() < self.alias_names:
+            pool = []
+            for n in self.nodes:
+                if n is not None and n.t in ("record", "enum", "fixed"):
+                    ns, simple = split_name(n.name)
+                    pool += [n.name, simple, simple, "." + simple if ns is None else ns + "." + simple]
+            if pool:
+                al = [rng.choice(pool) for _ in range(rng.choice([1, 1, 2, 3]))]
+                if rng.random() < 0.3:
+                    al.insert(rng.randint(0, len(al)), "Old")
+                out.append(("aliases", ("arr", [("str", a) for a in al])))
+        elif rng.random() < self.extras / 2:
             if self.loose and rng.random() < self.rich:
                 out.append(("aliases", ("arr", [("str", self.free_string()) for _ in range(rng.randint(0, 3))])))
             else:
@@ -189,9 +208,13 @@ class DocGen:
         nm, ns = self.name_attrs(k, enclosing)
         self.def_sites.append((k, enclosing))
         if n.t == "enum":
-            return self.members([("type", ("str", "enum"))] + nm + [("symbols", ("arr", [("str", s) for s in n.symbols]))] + ltm + self.extras_for("enum"))
+            o = self.members([("type", ("str", "enum"))] + nm + [("symbols", ("arr", [("str", s) for s in n.symbols]))] + ltm + self.extras_for("enum"))
+            self.def_objs[k] = o
+            return o
         if n.t == "fixed":
-            return self.members([("type", ("str", "fixed"))] + nm + [("size", ("num", str(n.size)))] + ltm + self.extras_for("fixed"))
+            o = self.members([("type", ("str", "fixed"))] + nm + [("size", ("num", str(n.size)))] + ltm + self.extras_for("fixed"))
+            self.def_objs[k] = o
+            return o
         fields = []
         self.open.add(k)
         for fname, fk in n.fields:
@@ -207,7 +230,9 @@ class DocGen:
                     fm.append((self.free_key(), self.free_value()))
             fields.append(self.members(fm))
         self.open.discard(k)
-        return self.members([("type", ("str", "record"))] + nm + [("fields", ("arr", fields))] + ltm + self.extras_for("record"))
+        o = self.members([("type", ("str", "record"))] + nm + [("fields", ("arr", fields))] + ltm + self.extras_for("record"))
+        self.def_objs[k] = o
+        return o
 
 def to_sx(j):
     t = j[0]
@@ -983,3 +1008,272 @@ def string_position_docs():
             ])
             out.append(("%s/%s" % (pos, e.encode("unicode_escape").decode()), doc))
     return out
+
+
+# ---------------------------------------------------------------------------------------------
+# Forward references that share their TEXT (C07/C08): the same simple name in several namespaces, each referred to by its SHORT
+# spelling from inside its own namespace BEFORE any of them is defined
+# ---------------------------------------------------------------------------------------------
+def forward_twins(rng):
+    """-> nodes (node 0 = root): `targets` = named types sharing 1..2 simple names over 2..3 namespaces (x.Item, y.Item, Item ...;
+    told apart by kind / symbols / size / fields) and `users` = records living in those namespaces whose fields refer to the
+    targets of their OWN namespace (sometimes of another one) directly or through a union / array / map; users may be nested in
+    one another (a user of namespace y inside a user of namespace x: the enclosing namespace changes on the way). The root (record
+    or union) holds users and targets side by side, users mostly first: with DocGen(forward > 0) -- which defines a named type at any
+    one of its occurrences and spells a reference by the simple name whenever the namespaces agree -- the document has several
+    not-yet-resolved references with the same text that designate different fullnames (and, in other draws, the arrangements next
+    to it: one of the targets already defined, references spelled in full, the same target referred to several times)."""
+    simples = rng.sample(["Item", "X", "Key"], rng.choice([1, 1, 2]))
+    nss = rng.sample(["x", "y", None, "x.sub", "zz.y"], rng.choice([2, 2, 3]))
+    nodes = [None]
+    def add(n):
+        nodes.append(n)
+        return len(nodes) - 1
+    targets = {}
+    i = 0
+    for ns in nss:
+        for s in simples:
+            if len(targets) >= 2 and rng.random() < 0.25:
+                continue
+            full = (ns + "." + s) if ns else s
+            i += 1
+            c = rng.choice(["enum", "fixed", "record"])
+            if c == "enum":
+                targets[(ns, s)] = add(_G.Node("enum", name=full, symbols=["S%d" % i] + ["A", "B"][:rng.randint(0, 2)]))
+            elif c == "fixed":
+                targets[(ns, s)] = add(_G.Node("fixed", name=full, size=i))
+            else:
+                targets[(ns, s)] = add(_G.Node("record", name=full, fields=[("v%d" % i, add(_G.Node(rng.choice(["int", "string", "long"]))))]))
+    def through(t):
+        c = rng.choice(["direct", "direct", "optional", "optional", "array", "map", "union1"])
+        if c == "direct":
+            return t
+        if c == "optional":
+            v = [add(_G.Node("null")), t]
+            if rng.random() < 0.3:
+                v.reverse()
+            return add(_G.Node("union", variants=v))
+        if c == "array":
+            return add(_G.Node("array", items=t))
+        if c == "map":
+            return add(_G.Node("map", values=t))
+        return add(_G.Node("union", variants=[t]))
+    users = []
+    keys = list(targets)
+    for ui in range(rng.choice([2, 2, 3, 4])):
+        ns = nss[ui % len(nss)] if ui < len(nss) else rng.choice(nss)
+        own = [k for k in keys if k[0] == ns]
+        fields = []
+        for fi in range(rng.choice([1, 1, 2, 3])):
+            k = rng.choice(own) if own and rng.random() < 0.85 else rng.choice(keys)
+            fields.append(("f%d" % fi, through(targets[k])))
+        if rng.random() < 0.3:
+            fields.insert(rng.randint(0, len(fields)), ("p", add(_G.Node(rng.choice(["int", "string"])))))
+        u = add(_G.Node("record", name=((ns + ".") if ns else "") + "U%d" % ui, fields=fields))
+        users.append(u)
+    # nesting: some users become a field of an earlier user instead of a sibling
+    top = [users[0]]
+    for u in users[1:]:
+        if rng.random() < 0.35:
+            host = nodes[rng.choice(top)]
+            host.fields.insert(rng.randint(0, len(host.fields)), ("n%d" % u, u if rng.random() < 0.6 else through(u)))
+        else:
+            top.append(u)
+    tl = list(targets.values())
+    rng.shuffle(tl)
+    if rng.random() < 0.3:
+        tl = tl[:rng.randint(0, len(tl))]        # some targets occur only below the users (defined there)
+    slots = top + tl
+    if rng.random() < 0.35:
+        rng.shuffle(slots)                       # some targets before some users: already defined when referred to
+    if rng.random() < 0.25 and len(slots) > 1:
+        nodes[0] = _G.Node("union", variants=slots)
+    else:
+        rns = rng.choice([None, None] + [n for n in nss if n])
+        fields = []
+        for si, k in enumerate(slots):
+            fields.append(("s%d" % si, k if rng.random() < 0.7 or nodes[k].t == "union" else through(k)))
+        nodes[0] = _G.Node("record", name=((rns + ".") if rns else "") + "Root", fields=fields)
+    return compact(nodes)
+
+
+def same_text_forward_refs(dg):
+    """number of reference TEXTS of the document generated by dg that are written, before the definition of their target, for two or
+    more different targets (the class forward_twins aims at) -- for the distribution report"""
+    by_text = {}
+    for (r, enclosing, k), state in zip(dg.ref_sites, dg.ref_states):
+        if state == "forward":
+            by_text.setdefault(r[1], set()).add(k)
+    return sum(1 for v in by_text.values() if len(v) > 1)
+
+
+# ---------------------------------------------------------------------------------------------
+# Node vectors only the builder API (SchemaMut::from_nodes / nodes_mut, the derive) produces: ONE unnamed node (union / array /
+# map) referenced from several places -- in particular from outside a recursive record AND from inside it (the wrapper the record
+# recurses through is the wrapper it is reached through), which a parsed document never yields (every occurrence gets its node)
+# ---------------------------------------------------------------------------------------------
+def shared_wrapper_graph(rng):
+    """-> nodes (node 0 = root), a valid schema. Records R0..Rk-1 (1..3); every record refers to some records (itself included)
+    through wrapper nodes; wrapper nodes are SHARED: one node per (wrapper kind, target) -- as the derive does per type -- or, in
+    some draws, one per occurrence for part of them. The root is a record (or an array / map / union) reaching R0 through the very
+    wrapper node R0 recurses through; other shapes: a chain of shared wrappers (array of optional), a shared wrapper holding a
+    non-recursive named type used twice, a shared primitive node."""
+    k = rng.choice([1, 1, 2, 2, 3])
+    ns = [rng.choice([None, None, "ns", "a.b"]) for _ in range(k)]
+    nodes = [None]
+    def add(n):
+        nodes.append(n)
+        return len(nodes) - 1
+    recs = [add(_G.Node("record", name=((ns[i] + ".") if ns[i] else "") + "R%d" % i, fields=[])) for i in range(k)]
+    extra_named = add(_G.Node(rng.choice(["enum", "fixed"]), name="ns.Leaf", symbols=["A", "B"], size=4))
+    if nodes[extra_named].t == "enum":
+        nodes[extra_named].size = None
+    else:
+        nodes[extra_named].symbols = None
+    shared_prim = add(_G.Node(rng.choice(["int", "string", "long"])))
+    null = add(_G.Node("null"))
+    memo = {}
+    p_share = rng.choice([1.0, 1.0, 0.7])
+    def wrapper(kind, target):
+        key = (kind, target)
+        if key in memo and rng.random() < p_share:
+            return memo[key]
+        if kind == "optional":
+            w = add(_G.Node("union", variants=[null if rng.random() < 0.8 else add(_G.Node("null")), target]))
+        elif kind == "array":
+            w = add(_G.Node("array", items=target))
+        elif kind == "map":
+            w = add(_G.Node("map", values=target))
+        elif kind == "array-optional":
+            w = add(_G.Node("array", items=wrapper("optional", target)))
+        else:                       # union with a further branch
+            w = add(_G.Node("union", variants=[shared_prim, target]))
+        memo.setdefault(key, w)
+        return w
+    kinds = ["optional", "optional", "array", "map", "array-optional", "union2"]
+    rec_kind = [rng.choice(kinds) for _ in range(k)]          # the wrapper each record is usually reached through
+    for i in range(k):
+        fields = [("value", shared_prim if rng.random() < 0.7 else add(_G.Node("int")))]
+        # the recursion: to itself and/or to the next record (ring), through its usual wrapper
+        targets = [i] if k == 1 or rng.random() < 0.6 else []
+        if k > 1:
+            targets.append((i + 1) % k)
+        if rng.random() < 0.3:
+            targets.append(rng.randrange(k))
+        for j in dict.fromkeys(targets):
+            fields.append(("to%d" % j, wrapper(rec_kind[j] if rng.random() < 0.85 else rng.choice(kinds), recs[j])))
+        if rng.random() < 0.4:
+            fields.append(("leaf", wrapper(rng.choice(kinds[:4]), extra_named)))
+        if rng.random() < 0.3:
+            fields.append(("leaf2", extra_named))
+        nodes[recs[i]].fields = fields
+    env = rng.choice(["record", "record", "record", "array", "map", "optional", "none"])
+    if env == "record":
+        fields = [("name", shared_prim if rng.random() < 0.5 else add(_G.Node("string")))]
+        for j in rng.sample(range(k), rng.randint(1, k)):
+            c = rng.random()
+            fields.append(("head%d" % j, wrapper(rec_kind[j], recs[j]) if c < 0.75 else recs[j] if c < 0.85 else wrapper(rng.choice(kinds), recs[j])))
+        if rng.random() < 0.3:
+            fields.append(("leaf", wrapper(rng.choice(kinds[:4]), extra_named)))
+        nodes[0] = _G.Node("record", name=rng.choice(["List", "ns.Holder", "a.b.Forest"]), fields=fields)
+    elif env == "none":
+        nodes[0] = nodes[recs[0]]
+        nodes[recs[0]] = _G.Node("null")
+        for n in nodes:
+            if n.t == "array" and n.items == recs[0]:
+                n.items = 0
+            elif n.t == "map" and n.values == recs[0]:
+                n.values = 0
+            elif n.t == "union":
+                n.variants = [0 if v == recs[0] else v for v in n.variants]
+            elif n.t == "record":
+                n.fields = [(f, 0 if fk == recs[0] else fk) for f, fk in n.fields]
+    else:
+        w = wrapper(rec_kind[0] if rng.random() < 0.7 else env, recs[0])
+        if env == "array":
+            nodes[0] = _G.Node("array", items=w if nodes[w].t != "array" or rng.random() < 0.5 else recs[0])
+        elif env == "map":
+            nodes[0] = _G.Node("map", values=w)
+        else:
+            # the root IS the shared wrapper: move it to position 0
+            nodes[0] = _G.Node("map", values=w) if nodes[w].t != "union" else _G.Node("array", items=w)
+    return compact(nodes)
+
+
+def has_reentered_wrapper(nodes):
+    """some unnamed node (union / array / map) is reached again while it is being written -- i.e. with a named node started in
+    between; for the distribution report"""
+    sys_stack = []
+    seen_named = set()
+    found = [False]
+    def go(k):
+        n = nodes[k]
+        if n.t in ("record", "enum", "fixed"):
+            if k in seen_named:
+                return
+            seen_named.add(k)
+            if n.t == "record":
+                sys_stack.append(("n", k))
+                for _, fk in n.fields:
+                    go(fk)
+                sys_stack.pop()
+            return
+        if n.t in ("array", "map", "union"):
+            if ("u", k) in sys_stack:
+                found[0] = True
+                return
+            sys_stack.append(("u", k))
+            for c in ([n.items] if n.t == "array" else [n.values] if n.t == "map" else n.variants):
+                go(c)
+            sys_stack.pop()
+    go(0)
+    return found[0]
+
+
+def alias_only_reference(rng, dg, doc):
+    """-> doc' INVALID: one named type of doc (generated by dg) gets an `aliases` attribute holding a fresh name (simple = in the
+    type's namespace, or dotted), and one reference of the document -- an existing reference to that type, or a field added next to
+    the document, before or after it -- designates the alias' fullname, which no definition of the document carries: an unknown
+    reference (aliases define no names within a schema). None if doc defines no named type"""
+    if not dg.def_objs:
+        return None
+    fulls = {dg.nodes[x].name for x in dg.occ}
+    k = rng.choice(sorted(dg.def_objs))
+    ns, simple = split_name(dg.nodes[k].name)
+    fresh = rng.choice(["Was", "Old", "Former"]) + simple
+    c = rng.choice(["short", "short", "dotted-same", "dotted-other", "dot-null"])
+    if c == "short":
+        alias, afull = fresh, ((ns + ".") if ns else "") + fresh
+    elif c == "dotted-same" and ns:
+        alias = afull = ns + "." + fresh
+    elif c == "dot-null":
+        alias, afull = "." + fresh, fresh
+    else:
+        alias = afull = "legacy." + fresh
+    if afull in fulls:
+        return None
+    old = dg.def_objs[k]
+    others = [("str", rng.choice(sorted(fulls)))] if rng.random() < 0.3 else []
+    al = [("str", alias)] + others
+    rng.shuffle(al)
+    m = [(kk, v) for kk, v in old[1] if kk != "aliases"]
+    m.insert(rng.randint(0, len(m)), ("aliases", ("arr", al)))
+    new = ("obj", m)
+    a_ns, a_simple = split_name(afull)
+    def spell(enclosing):
+        opts = ["full" if a_ns is not None else "dot"]
+        if a_ns == enclosing:
+            opts += ["bare", "bare"]
+        o = rng.choice(opts)
+        return ("str", a_simple if o == "bare" else afull if o == "full" else "." + a_simple)
+    sites = [(r, enclosing) for r, enclosing, kk in dg.ref_sites if kk == k]
+    if sites and rng.random() < 0.6:
+        r, enclosing = rng.choice(sites)
+        d2 = replace_obj(doc, old, new)
+        # the reference may sit INSIDE the definition object (recursive type): replace it in the new object as well
+        return replace_obj(d2, r, spell(enclosing))
+    d2 = replace_obj(doc, old, new)
+    ref_field = ("obj", [("name", ("str", "viaAlias")), ("type", spell(None))])
+    doc_field = ("obj", [("name", ("str", "body")), ("type", d2)])
+    order = [doc_field, ref_field] if rng.random() < 0.6 else [ref_field, doc_field]
+    return ("obj", [("type", ("str", "record")), ("name", ("str", "W__")), ("fields", ("arr", order))])
